@@ -153,6 +153,12 @@ func materialize(a absVal, env *runEnv) interface{} {
 				xs = append(xs, decodeChars(x.S))
 			}
 			return xs
+		case "htmls":
+			xs := make([]template.HTML, 0, len(a.Xs))
+			for _, x := range a.Xs {
+				xs = append(xs, template.HTML(decodeChars(x.S)))
+			}
+			return xs
 		case "ints":
 			xs := make([]int, 0, len(a.Xs))
 			for _, x := range a.Xs {
